@@ -379,6 +379,10 @@ def mon_c20(cases):
                     # system key is expired) and never entered the cache, so a later first use of it is not a "repeat"
                     if e["k"] == "MStore" and a[0] in adopted_latest:
                         loads.pop(adopted_latest.pop(a[0]), None)
+                    # a key this operation created and stored enters the cache now: reading it back from the metastore within the
+                    # interval is a repeat just as for a loaded key
+                    if e["k"] == "MStore" and a[-1] is True and ob["r"] == "enc":
+                        loads[(ctx.cache_of(sid) if hx(a[0]).startswith("_IK_") else ("f", f), a[0], a[1])] = t
 
 
 MONITORS = {"C01": mon_c01, "C02": mon_c02, "C03": mon_c03, "C04": mon_c04, "C05": mon_c05, "C07": mon_c07,
